@@ -432,7 +432,8 @@ def workload(tier, seed):
                         yield "unary_mapping", {"cls": cls, "n": n, "m": m, "edgemask": mask, "offset": 0}
         for L in (9, 10) if tier == "quick" else (9, 10, 11):
             yield "wide", {"cls": cls, "L": L}
-        for m in (257, 300, 513, 1025) if tier == "quick" else (256, 257, 300, 512, 513, 1000, 1024, 1025, 2049):
+        for m in (257, 300, 513, 1025, 2 ** 20 - 3) if tier == "quick" else (256, 257, 300, 512, 513, 1000, 1024, 1025, 2049, 2 ** 17 - 3,
+                                                                              2 ** 19 - 2, 2 ** 20 - 3, 2 ** 21 - 3, 2 ** 22 - 5):
             yield "binary_mapping_wide", {"cls": cls, "m": m}
         for n in range(1, 4):
             for m in range(1, 9 if tier == "quick" else 12):
@@ -482,6 +483,8 @@ def case_binary_mapping_wide(ctx, cls, m):
     n = 2
     k = (m - 1).bit_length()
     combos = [("complete",), ("complete", "injective")]
+    if m > 70000:
+        combos = [("complete",)]        # 17-22 bits: the range ends just below a power of two, so only a few values are forbidden
     if m <= 300 and cls == "CNF":
         combos.append(("complete", "nondecreasing"))           # C(m,2) clauses: affordable for the smaller ranges only
     for conds in combos:
